@@ -763,6 +763,18 @@ def c04(tier):
     account(v, resp, "padded-remaining-length", {"accepted": resp.get("counts", {}).get("padded_accepted", 0),
                                                  "refused": resp.get("counts", {}).get("padded_refused", 0)}, own={"C04"})
     v.cov["distinct_nontrivial"] += len(pads)
+    # decoders used by many goroutines at once (independent message objects, independent inputs): the process survives
+    p = core.run_harness(["decodeconc", "-workers", "8", "-rounds", "20000" if not thorough else "200000"], timeout=900)
+    if p.returncode != 0:
+        err = p.stderr or ""
+        head = [l for l in err.splitlines() if "fatal error" in l or l.startswith("panic:")][:2] + [l.strip() for l in err.splitlines() if "go-mqtt/" in l][:3]
+        if not head:
+            raise Infra("decodeconc failed: %s" % err[-1500:])
+        v.mismatch({"what": "concurrent Decode calls on independent messages and inputs: the process died (exit %s): %s" % (p.returncode, " | ".join(head)[:500]),
+                    "replay": {"command": "decodeconc -workers 8"}})
+        v.cov["parts"]["concurrent-decoders"] = {"died": True}
+    else:
+        account(v, json.loads(p.stdout.strip().splitlines()[-1]), "concurrent-decoders", own={"C04"})
     res2 = core.merge(core.run_sharded(["decodemut", "-seed", str(core.seed()), "-random", "20000" if not thorough else "400000"], cases, timeout=1500))
     account(v, res2, "mutations-and-random", {"lenient_accepts": res2.get("counts", {}).get("lenient_accepts", 0)})
     v.cov["distinct_nontrivial"] += res2.get("steps", 0)
@@ -890,7 +902,7 @@ def broker_check(pid, tier, plan, own, rule, extra=None, frag_item=None, pipe_it
 @check("C01")
 def c01(tier):
     return broker_check("C01", tier, [("RoutingSpec", "cover", 3, 4, "mockSuccess"), ("RoutingSpec", "paths", 2, 3, "mockSuccess"), ("RoutingSpec", "paths", 2, 2, "mockSuccess", 1),
-                                      ("SameSpec", "cover", 6, 7, "mockSuccess"), ("SameLastSpec", "paths", 5, 6, "mockSuccess"), ("BigSpec", "paths", 4, 5, "mockSuccess"), ("PathLastSpec", "paths", 4, 5, "mockSuccess")], {"C01"}, frag_item=1, rule=
+                                      ("SameSpec", "cover", 6, 7, "mockSuccess"), ("SameLastSpec", "paths", 5, 6, "mockSuccess"), ("BigSpec", "paths", 4, 5, "mockSuccess"), ("PathLastSpec", "paths", 4, 5, "mockSuccess"), ("SubsLastSpec", "paths", 5, 6, "mockSuccess")], {"C01"}, frag_item=1, rule=
                         "Broker specification, configuration routing: 2 network clients + 1 in-process subscriber, filters {a/b,a/+,a/#,#,+/b}, names "
                         "{a/b,a,a/b/c,c}, publish QoS x granted QoS in {0,1,2}^2, payloads tiny/empty/big; transition cover and all paths; after every "
                         "step the PUBLISH packets on every connection (topic, payload bytes, QoS, retain flag) are compared with the specification's bag. "
@@ -910,6 +922,19 @@ def q2many(v, tier, pid="C02", own=None, orderonly=False):
     if not behs:
         raise Infra("Q2ManySpec simulation produced no behaviours")
     broker_replay(v, pid, behs, "many-open-exchanges(simulation%s)" % (", delivery order only" if orderonly else ""), own_tags=own or {"C02", "C01"}, orderonly=orderonly)
+
+
+def fwdmany(v, tier, pid, own):
+    """many QoS 1 deliveries to one subscriber outstanding (it acknowledges slowly): TLC -simulate behaviours of FwdManySpec"""
+    thorough = tier == "thorough"
+    depth = 100 if not thorough else 200
+    cfg = BROKER_CFG % dict(spec="FwdManySpec", depth=depth, maxqos=2, cids="{k1, k2}", emit="EmitMany", view="")
+    r = core.run_tlc("MCBroker", cfg.replace("PROPERTIES StepProps\n", ""), workers=8, timeout=900, simulate=2 if not thorough else 20, depth=depth + 3, tlc_seed=core.seed())
+    v.tlc("FwdManySpec(simulation)", r)
+    behs = core.behaviours(r.lines)
+    if not behs:
+        raise Infra("FwdManySpec simulation produced no behaviours")
+    broker_replay(v, pid, behs, "many-outstanding-deliveries(simulation)", own_tags=own)
 
 
 @check("C02")
@@ -1247,6 +1272,8 @@ def c05(tier):
     # a subscriber whose incoming direction is dead, among live ones: nobody else notices
     behs = broker_behaviours(v, "HalfSpec", 5 if not thorough else 6, "paths")
     broker_replay(v, "C05", behs, "HalfSpec(paths,%d)" % (5 if not thorough else 6), own_tags={"C05", "C01", "C08", "C07"})
+    # a subscriber that acknowledges slowly: the publisher, whose processor fills the subscriber's request queue, is not hurt
+    fwdmany(v, tier, "C05", {"C05", "C01", "C12", "C02"})
     # the first-packet classes of the Broker specification run in child processes: a dead child is the observation 'the broker process died'
     behs = broker_behaviours(v, "AdmitSpec", 3 if not thorough else 4, "cover")
     results = core.run_sharded(["brokerreplay"], behs, timeout=1200, died_is_result=True)
@@ -1490,6 +1517,7 @@ def c12(tier):
     # broker -> subscriber direction: PUBREL follows the subscriber's PUBREC with the same identifier
     behs = broker_behaviours(v, "FwdSpec", 6 if not thorough else 7, "paths")
     broker_replay(v, "C12", behs, "broker-as-sender(paths)", own_tags={"C12", "C02", "C01"})
+    fwdmany(v, tier, "C12", {"C12", "C02", "C01", "C05"})
     # broker -> subscriber direction: identifiers of requests simultaneously in flight
     p = core.run_harness(["fwdids", "-reps", "3" if not thorough else "20"], timeout=300)
     if p.returncode != 0:
